@@ -153,12 +153,16 @@ def _roundtrip(case, tmp):
         return result(VIOL, cls=[base + "/exception"], events=ev, key="C18:write-exception:%s" % type(err[1]).__name__, what="writing on %d ranks: rank %d raised %r" % (P1, err[0], err[1]), witness=wit)
     # hyperslabs of every dataset disjoint and covering
     for fname, shape in (("grid_%06d.h5" % t_write, None), ("phi_%06d.h5" % t_write, None)):
-        boxes = [b for (fn, ds, rk, b) in simh5.LOG if os.path.basename(fn) == fname]
+        # (writes are attributed by file name; an implementation that writes under a temporary name and renames afterwards is
+        #  matched by containment, and if no write can be attributed at all the partition monitor has nothing to judge -- the
+        #  content comparison below still does)
+        boxes = [b for (fn, ds, rk, b) in simh5.LOG if fname in os.path.basename(fn)]
         data, order = dr.read_h5(os.path.join(folder, fname))
         cover = np.zeros(data.shape, dtype=int)
         for b in boxes:
             cover[tuple(slice(a, e) for a, e in b)] += 1
-        if not (cover == 1).all():
+        ev["hyperslab_partitions_checked"] = ev.get("hyperslab_partitions_checked", 0) + (1 if boxes else 0)
+        if boxes and not (cover == 1).all():
             return result(VIOL, cls=[base], events=ev, key="C18:hyperslabs-not-a-partition", what="%s: hyperslab writes overlap or leave gaps (coverage min %d max %d)" % (fname, cover.min(), cover.max()), witness=wit)
     data, order = dr.read_h5(os.path.join(folder, "grid_%06d.h5" % t_write))
     from vlib.simrun import PHYS
